@@ -31,6 +31,11 @@ OperandsMatch(ev) ==
   /\ (Has(ev, "rb") => regs[ev.rb] = ev.b)
   /\ (Has(ev, "rc") => regs[ev.rc] = ev.c)
 
+\* linalg::quire_dot: one entry of a matrix product = a cleared quire fed row[i] * col[i], rounded once
+DotEv(ev, F) ==
+  LET PFm == PF(F[1], F[2]) IN
+  QToPosit(F[1], F[2], AddTerms(PFm, QZero, [i \in 1 .. Len(ev.as) |-> <<ev.as[i], <<ev.bs[i]>> >>], 1))
+
 \* poly events: deg = 1..18, or 33 / 44 for the 3a / 4a variants; cs = coefficients (each a list of parts)
 PolyEv(ev, F) ==
   LET PFm == PF(F[1], F[2]) IN
@@ -40,14 +45,17 @@ PolyEv(ev, F) ==
 
 \* elementary functions: three-valued verdict, first at 64 bits, re-examined at 200 bits if undecided
 IsElem(ev) == (ev.t \in {"p8", "p16"} /\ ev.op \in C11Ops) \/ (ev.t = "p32" /\ ev.op \in C15Ops)
-ElemV(ev, N, ES, x, P) ==
-  IF ev.t = "p32" THEN V15(ev.op, N, ES, x[1], IF Len(x) > 1 THEN x[2] ELSE <<>>, ev.r, P)
-  ELSE V11(ev.op, N, ES, x[1], ev.r, P)
-ElemVerdict(ev, N, ES, x) ==
-  LET v1 == ElemV(ev, N, ES, x, 64) IN IF v1 # "undecided" THEN v1 ELSE ElemV(ev, N, ES, x, 200)
-ElemGood(ev, N, ES, x) ==
-  LET v == ElemVerdict(ev, N, ES, x) IN
-  IF v = "undecided" THEN PrintT(<<"UNDECIDED", ev.op, ev.t, x>>) ELSE v = "ok"
+ElemV(op, t, N, ES, x, res, P) ==
+  IF t = "p32" THEN V15(op, N, ES, x[1], IF Len(x) > 1 THEN x[2] ELSE <<>>, res, P)
+  ELSE V11(op, N, ES, x[1], res, P)
+ElemVerdict(op, t, N, ES, x, res) ==
+  LET v1 == ElemV(op, t, N, ES, x, res, 64) IN IF v1 # "undecided" THEN v1 ELSE ElemV(op, t, N, ES, x, res, 200)
+ElemGood1(op, ev, N, ES, x, res) ==
+  LET v == ElemVerdict(op, ev.t, N, ES, x, res) IN
+  IF v = "undecided" THEN PrintT(<<"UNDECIDED", op, ev.t, x>>) ELSE v = "ok"
+\* (sin_cos is not among the functions C15 lists and is in fact far less accurate than sin and cos --
+\*  sin_cos(4.0) is 137 / 1340 encodings off -- so its value is left unspecified: UnspecOps)
+ElemGood(ev, N, ES, x) == ElemGood1(ev.op, ev, N, ES, x, ev.r)
 
 -----------------------------------------------------------------------------
 (* register-file events *)
@@ -105,8 +113,13 @@ DiagX(ev, F, raw) ==
 GoodCall(ev, F, x) ==
   /\ ev.o = "ok"
   /\ OperandsMatch(ev)
-  /\ IF ev.op = "mathconst" THEN ev.r = ev.r2      \* MathConsts and FloatConst spellings agree
+  /\ IF ev.op = "mathconst" THEN      \* MathConsts and FloatConst spellings agree, and name the constant
+        /\ ev.r = ev.r2
+        /\ LET v1 == ConstVerdict(ev.sp, F[1], F[2], ev.r, 64)
+               v == IF v1 # "undecided" THEN v1 ELSE ConstVerdict(ev.sp, F[1], F[2], ev.r, 200)
+           IN v # "wrong"
      ELSE IF ev.op = "poly" THEN ev.r = PolyEv(ev, F)
+     ELSE IF ev.op = "q_dot" THEN ev.r = DotEv(ev, F)
      ELSE IF IsElem(ev) THEN ElemGood(ev, F[1], F[2], x)
      ELSE (Pre(ev.op, F[1], F[2], x) => Accept(ev.op, ev.sp, F[1], F[2], x, ev.r))
 GoodOp(ev) ==
@@ -120,7 +133,8 @@ DiagOp(ev) ==
   ELSE IF ev.o # "ok" THEN <<"outcome", ev.o, DomTag(ev, F[1], F[2], x)>>
   ELSE IF ~OperandsMatch(ev) THEN <<"operands-do-not-match-registers">>
   ELSE IF ev.op = "poly" THEN <<"expected", PolyEv(ev, F)>>
-  ELSE IF IsElem(ev) THEN <<"enclosure-outside-allowed-cells", IF ev.t = "p32" THEN Bound(ev.op) ELSE 0>>
+  ELSE IF ev.op = "q_dot" THEN <<"expected", DotEv(ev, F)>>
+  ELSE IF IsElem(ev) THEN <<"enclosure-outside-allowed-cells", IF ev.t = "p32" THEN Bound(IF ev.op = "sin_cos" THEN "sin" ELSE ev.op) ELSE 0>>
   ELSE IF ev.op \in FnOps THEN <<"expected", Fn(ev.op, ev.sp, F[1], F[2], x)>>
   ELSE <<"relation-violated">>
 
@@ -208,6 +222,29 @@ StepQ(ev) ==
                    THEN [qs EXCEPT ![ev.q] = QOfBits(QW(ev), QFr(ev), ev.bits)] ELSE qs
 
 -----------------------------------------------------------------------------
+(* T3: events emitted by the cfg(softposit_verif) hooks inside the crate.  Arithmetic events *)
+(* (sp = "hook") are ordinary operation events.  Quire events carry the bit image before the  *)
+(* call, so each one is a complete transition of the quire machine by itself:                 *)
+(*   q_step : post = (pre (+|-) a*b) or (pre (+|-) a);   q_round : r = round(pre).            *)
+T3Ops == {"q_step", "q_round"}
+GoodT3(ev) ==
+  LET F == Fmt(ev.t, EvN(ev)) N == F[1] ES == F[2] W == QW(ev) QF == QFr(ev)
+      q0 == QOfBits(W, QF, ev.pre)
+  IN IF ev.op = "q_round" THEN ev.r = QToPosit(N, ES, q0)
+     ELSE LET q1 == IF ev.single THEN QAddPosit(W, QF, N, ES, q0, ev.a, ev.sub)
+                    ELSE QAddProduct(W, QF, N, ES, q0, ev.a, ev.b, ev.sub)
+          IN ~q1.inr \/ ev.bits = QBits(W, QF, q1)
+DiagT3(ev) ==
+  LET F == Fmt(ev.t, EvN(ev)) N == F[1] ES == F[2] W == QW(ev) QF == QFr(ev)
+      q0 == QOfBits(W, QF, ev.pre)
+  IN IF ev.op = "q_round" THEN <<"expected", QToPosit(N, ES, q0)>>
+     ELSE <<"expected-bits", QBits(W, QF, IF ev.single THEN QAddPosit(W, QF, N, ES, q0, ev.a, ev.sub)
+                                         ELSE QAddProduct(W, QF, N, ES, q0, ev.a, ev.b, ev.sub))>>
+StepT3(ev) ==
+  /\ regs' = regs /\ qs' = qs
+  /\ IF GoodT3(ev) THEN bad' = bad ELSE PrintT(<<"MISMATCH", l, DiagT3(ev)>>) /\ bad' = bad + 1
+
+-----------------------------------------------------------------------------
 Init == regs = RegsInit /\ qs = QsInit /\ l = 1 /\ bad = 0 /\ TLCSet(42, 0)
 
 Step ==
@@ -216,6 +253,7 @@ Step ==
   /\ TLCSet(42, bad)       \* (register read by the postcondition; single worker)
   /\ LET ev == Rec[l] IN
      IF ev.op = "reset" THEN Reset /\ bad' = bad
+     ELSE IF ev.op \in T3Ops THEN StepT3(ev)
      ELSE IF ev.op \in QOps THEN StepQ(ev)
      ELSE StepOp(ev)
 
